@@ -98,6 +98,15 @@ def KinkComplete (ks : List Rat) : List Rat → Prop
   | a :: b :: rest => (a ≤ b ∧ noKinkIoo ks a b) ∧ KinkComplete ks (b :: rest)
   | _ => True
 
+/-- last element of the non-empty grid `p :: g` -/
+def lastOr (p : Rat) : List Rat → Rat
+  | [] => p
+  | x :: xs => lastOr x xs
+
+/-- `S` is affine on [θ₁, θ₂) -/
+def AffineOn (S : Rat → Rat) (θ₁ θ₂ : Rat) : Prop :=
+  ∃ c₀ c₁ : Rat, ∀ θ, θ₁ ≤ θ → θ < θ₂ → S θ = c₀ + c₁ * θ
+
 /-! ### mean over cases with NaN matching (executable oracle for the harness) -/
 
 inductive Fn where
